@@ -98,7 +98,8 @@ def encode(history, warm, cold):
                 ev = w['translator_events']
                 t_obs.append((tid_i(w['translator_id']), sorted((pidx(k), val_i([tname(v), v])) for k, v in w['fixed']),
                               EVENT.get(ev[0], 9) if len(ev) >= 1 else 9))
-                s_keys.append(sk_i([qid, vt, fixed, OPTS[how]]))
+                # the driver pages the entity query (12) without order_by: page(1, 2) is then the same statement as [:2]
+                s_keys.append(sk_i([qid, vt, fixed, OPTS['limit2' if (qid == 12 and how == 'page') else how]]))
                 sev = w['sql_events']
                 s_obs.append(sev == ['Hit'] if sev in (['Hit'], ['Miss']) else None)
             q = q_i([qid, vt, fixed, how, c['args'][-1:]])          # the result-cache key: query + options + ARGUMENTS reaching the SQL
